@@ -19,7 +19,7 @@ structure Table where
   deriving Repr
 
 def precompute (m p : Int) (t : Nat) : Except Err Table :=
-  if p = 0 ∧ 1 < min t Gen.TMCG_MAX_FPOWM_T then .error .div0
+  if p = 0 then .error .invalidArgument
   else .ok ⟨precomputeGo p (max 1 (min t Gen.TMCG_MAX_FPOWM_T)) m⟩
 
 def Table.get (T : Table) (i : Nat) : Int := T.entries.getD i 0
@@ -36,7 +36,7 @@ def fpowm (T : Table) (m x p : Int) : Except Err Int :=
   else
     let xx := x.natAbs
     if bitlen x ≤ Gen.TMCG_MAX_FPOWM_T then
-      if p = 0 then .error .div0 else
+      if p = 0 ∧ x ≠ 0 then .error .div0 else
       let res := mulLoop T p xx (bitlen x) 0 1
       if x < 0 then
         match invm res p with
@@ -103,15 +103,16 @@ def spowm (m x p : Int) : Except Err Int :=
       | none => .error .runtimeError
       | some i1 =>
         let res2 := res1 * i1 % p
-        let res3 := res2 * bar % p
-        match invm bar p with
+        -- dummy with `bar = -x` (falls back to 1 when `bar` has no inverse)
+        let (i2, bar') := match invm bar p with
+          | none => ((1 : Int), (1 : Int))
+          | some i => (i, bar)
+        let res3 := res2 * bar' % p
+        let res4 := res3 * i2 % p
+        let res5 := res4 * baz % p
+        match invm baz p with
         | none => .error .runtimeError
-        | some i2 =>
-          let res4 := res3 * i2 % p
-          let res5 := res4 * baz % p
-          match invm baz p with
-          | none => .error .runtimeError
-          | some i3 => .ok (res5 * i3 % p)
+        | some i3 => .ok (res5 * i3 % p)
 
 /-- Chaum's base blinding `tmcg_mpz_spowm_baseblind` given the accepted blinding value `r`
     (the first draw with an inverse) -/
